@@ -198,6 +198,8 @@ def keep_choices(rng, d1, d2):
         opts.append([rng.choice(conn)])
         opts.append(list(conn))
     opts.append([rng.choice(outs)])
+    if rng.random() < 0.25:
+        opts.append([rng.choice(outs), "stranger"] if rng.random() < 0.5 else ["stranger"])      # a name of neither contract
     return opts
 
 
